@@ -30,7 +30,7 @@ def floor(tier):
 
 
 def cases(tier, rng):
-    n = 120 if tier == "quick" else 4000
+    n = 120 if tier == "quick" else 20000
     out = []
     for i in range(n):
         process, proj = cards.process_projectile(rng)
